@@ -138,19 +138,31 @@ Definition obj_inline_slices (o : obj) : list sref :=
   | OArr es => flat_map inline_slices es
   end.
 
-Fixpoint arr_rank (fuel : nat) (h : heap) (a : addr) : nat :=
-  match fuel with
-  | O => O
-  | S f =>
-      match hget h a with
-      | Some (OArr es) =>
-          fold_right (fun s m => Nat.max (S (arr_rank f h (s_arr s))) m) O (flat_map inline_slices es)
-      | _ => O
-      end
-  end.
+(* longest-path ranks over an edge list, by n rounds of relaxation (polynomial:
+   rounds x nodes x out-degree x lookup; a naive recursive longest-path is
+   exponential on diamond-shaped graphs).  rank a = 0 without successors, else
+   1 + the largest rank of a successor as of the previous round; after as many
+   rounds as there are nodes the ranks of an acyclic graph are final, on a cycle
+   they keep growing and the guard that re-checks them fails. *)
+Definition rank_lookup (rk : list (addr * nat)) (a : addr) : nat :=
+  (fix go (l : list (addr * nat)) : nat :=
+     match l with [] => O | (b, r) :: t => if a =? b then r else go t end) rk.
+
+Definition rank_round (edges : list (addr * list addr)) (rk : list (addr * nat)) : list (addr * nat) :=
+  map (fun e => (fst e, fold_right (fun b m => Nat.max (S (rank_lookup rk b)) m) O (snd e))) edges.
+
+Fixpoint iter_ranks (n : nat) (edges : list (addr * list addr)) (rk : list (addr * nat)) : list (addr * nat) :=
+  match n with O => rk | S k => iter_ranks k edges (rank_round edges rk) end.
+
+(* backing arrays and the arrays the slices held inline in their elements refer to *)
+Definition arr_edges (h : heap) : list (addr * list addr) :=
+  flat_map (fun ao => match snd ao with
+                      | OArr es => [(fst ao, map s_arr (flat_map inline_slices es))]
+                      | _ => []
+                      end) h.
 
 Definition compute_rk (h : heap) : list (addr * nat) :=
-  flat_map (fun ao => match snd ao with OArr _ => [(fst ao, arr_rank (S (length h)) h (fst ao))] | _ => [] end) h.
+  let edges := arr_edges h in iter_ranks (S (length edges)) edges [].
 
 Definition rank_bound (rk : list (addr * nat)) : nat := S (fold_right (fun ar m => Nat.max (snd ar) m) O rk).
 
